@@ -299,7 +299,7 @@ def configs_for(prop, tier):
     if prop == "C05":
         base = [
             dict(name="lists-r2-l3", maxrefs=2, maxlen=3, ops=["NewList", "NewList2", "NewListOf"] + LIST_MUT + LIST_DER + ["Delete2", "Add2"],
-                 conc=["plain", "extreme"], depth=3, walks=6000, walklen=40),
+                 conc=["plain", "extreme", "long"], depth=3, walks=6000, walklen=40),
             dict(name="nest-r3-l1", maxrefs=3, maxlen=1, nkeys=1, ops=["NewList", "NewListOf", "NewObject"] + LIST_MUT + LIST_DER,
                  arglits=[1], conc=["weird"], depth=3, walks=6000),
             # two values of one kind: Sort / Reverse histories change the order
@@ -318,7 +318,7 @@ def configs_for(prop, tier):
         base = [
             dict(name="objs-r2-k2", maxrefs=2, nkeys=2, maxlen=2, scalars=[("int", 1), ("nil", 0)],
                  ops=["NewObject", "NewObject2", "Set2", "Unset2"] + OBJ_MUT + OBJ_DER + ["Dict", "MapIdO"],
-                 conc=["weird", "plain"], depth=3, walks=6000, walklen=40),
+                 conc=["weird", "plain", "long"], depth=3, walks=6000, walklen=40),
             dict(name="objs-r3-k1", maxrefs=3, nkeys=1, maxlen=1, scalars=[("str", 1)], lits=[("L", []), OBJLIT], arglits=[2],
                  ops=["NewObject", "NewList"] + OBJ_MUT + OBJ_DER, conc=["weird"], depth=3, walks=6000),
             dict(name="merge-r3-k2", maxrefs=3, nkeys=2, maxlen=2, scalars=[("int", 1), ("int", 2)], argrefs=False,
@@ -341,7 +341,7 @@ def configs_for(prop, tier):
         eqs = [("int", 1), ("float", 4), ("nil", 0)]
         base = [
             dict(name="eq-r3-small", maxrefs=3, nkeys=1, maxlen=2, scalars=[("int", 1), ("float", 4)], ops=["NewList", "NewObject", "Add", "Set", "Unset", "Pop"],
-                 obs="equals,getters", conc=["plain"], depth=3, walks=4000, walklen=20, invariants=["TypeOK", "AcyclicInv", "EqualsInv"]),
+                 obs="equals,getters", conc=["plain", "long"], depth=3, walks=4000, walklen=20, invariants=["TypeOK", "AcyclicInv", "EqualsInv"]),
             dict(name="eq-r2-k2", maxrefs=2, nkeys=2, maxlen=3, scalars=eqs, ops=["NewList", "NewObject", "Add", "Set", "Unset", "Pop", "Replace"],
                  obs="equals,getters", conc=["weird"], depth=3, walks=4000, walklen=20, invariants=["TypeOK", "AcyclicInv", "EqualsInv"]),
             dict(name="eq-lits", maxrefs=4, nkeys=1, maxlen=2, scalars=[("int", 1)], lits=[("L", []), ("O", {})], arglits=[1, 2], argrefs=False,
@@ -365,7 +365,7 @@ def configs_for(prop, tier):
             # clones of containers that were themselves produced by derivations
             dict(name="clone-derived-r5", maxrefs=5, buildrefs=2, nkeys=1, maxlen=2, scalars=[("int", 1)], slack=0,
                  ops=["NewList", "NewObject", "Clone", "CloneO", "SubList", "Concat", "FilterAll", "MapId", "Values", "Pluck", "Merge", "MapIdO"],
-                 conc=["plain"], obs="equals", depth=4, walks=4000, walklen=12),
+                 conc=["plain", "long"], obs="equals", depth=4, walks=4000, walklen=12),
             dict(name="clone-listof", maxrefs=3, nkeys=1, maxlen=3, scalars=[("int", 1), ("int", 2)], argrefs=False, slack=0,
                  ops=["NewListOf", "Replace", "Clone", "Add", "Pop"], conc=["plain"], obs="equals", depth=3, walks=3000, walklen=15),
             dict(name="clone-insert", maxrefs=2, nkeys=1, maxlen=4, scalars=[("int", 1), ("int", 2)], argrefs=False, slack=0,
@@ -390,7 +390,7 @@ def configs_for(prop, tier):
         LOPS = ["Add", "Pop", "Delete", "Insert", "Replace", "Clear", "Sort", "Reverse", "Concat", "SubList", "FilterAll", "MapId", "Slice", "GoSet", "GoAppend"]
         base = [
             dict(name="derive-r3-l2", maxrefs=3, nkeys=1, maxlen=2, scalars=[("int", 1), ("int", 2)], ops=["NewList", "NewList2"] + LOPS,
-                 slack=0, argrefs=False, conc=["plain"], obs="getters,index,strings", depth=3, walks=20000, walklen=40),
+                 slack=0, argrefs=False, conc=["plain", "long"], obs="getters,index,strings", depth=3, walks=20000, walklen=40),
             dict(name="derive-r2-l4", maxrefs=2, nkeys=1, maxlen=4, scalars=[("int", 1), ("int", 2)], ops=["NewList", "NewList2", "NewList3"] + LOPS,
                  slack=0, argrefs=False, conc=["extreme"], obs="getters,index", depth=3, walks=20000, walklen=50),
             dict(name="derive-obj-r3", maxrefs=3, nkeys=2, maxlen=2, scalars=[("int", 1), ("int", 2)], argrefs=False,
@@ -411,7 +411,7 @@ def configs_for(prop, tier):
         RO = ["NewList", "NewObject", "Add", "Set", "Unset", "Pop", "Replace"]
         base = [
             dict(name="tfread-r3-k1", maxrefs=3, nkeys=1, maxlen=1, scalars=[("int", 1)], ops=RO, tfread=3,
-                 conc=["tf"], obs="tf,malform", depth=4, walks=6000, walklen=25),
+                 conc=["tf", "long"], obs="tf,malform", depth=4, walks=6000, walklen=25),
             dict(name="tfread-r2-k2", maxrefs=2, nkeys=2, maxlen=2, scalars=[("int", 1), ("nil", 0)], ops=RO, tfread=2,
                  conc=["tf"], obs="tf,malform", depth=3, walks=6000, walklen=25),
         ]
@@ -427,7 +427,7 @@ def configs_for(prop, tier):
         WO = ["NewList", "NewObject", "SetTF", "UnsetTF"]
         base = [
             dict(name="tfwrite-r3", maxrefs=3, nkeys=1, maxlen=2, scalars=[("int", 1)], lits=[("L", [("int", 7)])], arglits=[1],
-                 ops=WO, tfkeys=1, tfidx=1, tflen=2, tfread=2, conc=["tf"], obs="tf,getters", depth=3, walks=6000, walklen=25, obsevery=2),
+                 ops=WO, tfkeys=1, tfidx=1, tflen=2, tfread=2, conc=["tf", "long"], obs="tf,getters", depth=3, walks=6000, walklen=25, obsevery=2),
             # writes into lists whose element storage is shared with other lists (NewListOf, SubList, Concat)
             dict(name="tfwrite-shared", maxrefs=2, nkeys=1, maxlen=3, scalars=[("int", 1), ("int", 2)], argrefs=False, slack=0,
                  ops=["NewListOf", "NewList2", "SubList", "SetTF", "UnsetTF"], tfkeys=1, tfidx=2, tflen=1, tfread=1,
@@ -448,7 +448,7 @@ def configs_for(prop, tier):
               "GoSet", "GoAppend", "GoDelete", "Add", "Pop", "Set", "Unset", "NewList", "NewObject"]
         base = [
             dict(name="native-r3", maxrefs=3, nkeys=1, maxlen=2, scalars=[("int", 1)], ops=NO,
-                 conc=["weird"], obs="getters", depth=3, walks=10000, walklen=30),
+                 conc=["weird", "long"], obs="getters", depth=3, walks=10000, walklen=30),
             # a list directly inside a list that itself holds a container; repeated conversions around a nested change
             dict(name="native-nest", maxrefs=6, buildrefs=3, nkeys=1, maxlen=1, scalars=[("int", 1)], ops=["NewList", "NewObject", "NativeSlice", "NativeDict"],
                  conc=["plain"], obs="getters", depth=5, walks=2000, walklen=8),
@@ -479,7 +479,7 @@ def configs_for(prop, tier):
         allops = ["NewList", "NewObject", "NewListOf"] + LIST_MUT + ["SortAny", "SubList", "Clone"] + OBJ_MUT + ["Keys", "Values", "Pluck", "CloneO", "SetTF", "UnsetTF"]
         base = [
             dict(name="ego-r3-l1", maxrefs=3, nkeys=1, maxlen=1, scalars=[("int", 1)], ops=allops, tfkeys=1, tfidx=0, tflen=2, tfread=2,
-                 conc=["tf"], derived=[1, 2], obs="getters,index,tf", depth=3, walks=4000, walklen=30),
+                 conc=["tf", "long"], derived=[1, 2], obs="getters,index,tf", depth=3, walks=4000, walklen=30),
             dict(name="ego-r2-l2", maxrefs=2, nkeys=1, maxlen=2, scalars=[("int", 1)], ops=allops, tfkeys=1, tfidx=1, tflen=2, tfread=2,
                  conc=["tf"], derived=[1, 2], obs="getters,index,tf", depth=3, walks=4000, walklen=30),
         ]
